@@ -37,6 +37,14 @@ PAD_VALUES = ["median", "mean", "min", "max", 0.25]
 # align_translation(upsample_factor=...): default 8; cross_correlation_shift documents an int, C13 claims 1..64;
 # values around powers of two and beyond 1.5*up = 48 on purpose (window-size arithmetic)
 ALIGN_UPS = [1, 2, 3, 4, 7, 8, 16, 31, 32, 33, 40, 48, 64, 100]
+# containers / dtypes for scan_direction_degrees that from_data and the property setter accept (probed on the
+# clean tree: all of these are accepted; the geometry is float64-exact for the first group and single-precision
+# for the second, where np.deg2rad itself returns float32).  float16 / int8 / uint8 arrays are accepted too but
+# np.deg2rad turns them into float16 radians (errors up to ~0.05 px): not judged.
+ANGLE_KINDS_EXACT = ["list", "list_int", "tuple", "nd:float64", "nd:int64", "nd:int32", "nd:uint32", "nd:uint64"]
+ANGLE_KINDS_SINGLE = ["nd:float32", "nd:int16", "nd:uint16"]
+ANGLE_KINDS = ["list"] * 4 + ["nd:float64"] * 2 + ANGLE_KINDS_EXACT[1:3] + ANGLE_KINDS_EXACT[4:] + ANGLE_KINDS_SINGLE
+TOL_COORD_SINGLE = 1e-4  # px; bound ~ (eps32 * 2 pi + eps32) * half-diagonal(17 px) ~ 7e-6, measured <= 1.3e-6
 KEY_UPSAMPLE = "xcorr-upsample-identical"  # numpy cross_correlation_shift(upsample_factor > 1), owned by C13
 
 
@@ -49,12 +57,51 @@ def _q():
 # ------------------------------------------------------------------------------------------------
 # generator
 # ------------------------------------------------------------------------------------------------
-def _angles():
-    return st.one_of(
-        st.sampled_from([0.0, 90.0, 180.0, 270.0, 45.0, 30.0, 135.0, 200.0, 315.0]),
-        st.floats(0.0, 360.0, exclude_max=True, allow_nan=False),
-        st.integers(0, 359).map(float),
-    )
+def _angles(kind="list"):
+    """Scan directions (as floats) representable in the container `kind`."""
+    special = st.sampled_from([0.0, 90.0, 180.0, 270.0, 45.0, 30.0, 135.0, 200.0, 315.0])
+    whole = st.integers(0, 359).map(float)
+    if kind in ("list_int",) or (kind.startswith("nd:") and "int" in kind):
+        return st.one_of(special, whole)
+    width = 32 if kind == "nd:float32" else 64
+    return st.one_of(special, st.floats(0.0, 360.0, exclude_max=True, allow_nan=False, width=width), whole)
+
+
+def _angle_container(kind, angles):
+    if kind == "list":
+        return [float(a) for a in angles]
+    if kind == "list_int":
+        return [int(a) for a in angles]
+    if kind == "tuple":
+        return tuple(float(a) for a in angles)
+    dt = np.dtype(kind.split(":", 1)[1])
+    if dt.kind in "iu":
+        return np.array([int(a) for a in angles], dtype=dt)
+    return np.array([float(a) for a in angles], dtype=dt)
+
+
+def _tol_coord(kind):
+    return TOL_COORD_SINGLE if kind in ANGLE_KINDS_SINGLE else TOL_COORD
+
+
+@st.composite
+def _plot_spec(draw, with_align):
+    """Which displays run.  None = everything off (show_merged=False passed explicitly to align_*)."""
+    if draw(st.integers(0, 19)) < 16:
+        return None
+    # one display per spec as a rule (each figure costs 15-60 ms): the default-on display of align_*, a display
+    # flag of preprocess, or a public plot_* call between the steps
+    what = draw(st.sampled_from(["align", "align", "pre", "between", "between", "mix"]))
+    spec = {"pre": "off", "between": []}
+    if with_align:
+        spec["align"] = "off"
+    if what in ("align", "mix") and with_align:
+        spec["align"] = draw(st.sampled_from(["default", "default", "default", "images", "both"]))
+    if what in ("pre", "mix") or (what == "align" and not with_align):
+        spec["pre"] = draw(st.sampled_from(["merged", "merged", "images"]))
+    if what in ("between", "mix"):
+        spec["between"] = draw(st.lists(st.sampled_from(["merged", "merged", "transformed", "convergence"]), min_size=1, max_size=2))
+    return spec
 
 
 @st.composite
@@ -63,16 +110,19 @@ def cases(draw, same=None, allow_upsampled_align=True):
     C = R if draw(st.integers(0, 3)) == 0 else draw(st.integers(6, 24))
     n = draw(st.integers(2, 4))
     same = draw(st.booleans()) if same is None else same
+    kind = draw(st.sampled_from(ANGLE_KINDS))
     if same:
-        angles = [draw(_angles())] * n
+        angles = [draw(_angles(kind))] * n
     else:
-        angles = [draw(_angles()) for _ in range(n)]
+        angles = [draw(_angles(kind)) for _ in range(n)]
     case = {
         "R": R,
         "C": C,
         "n": n,
         "same": bool(same),
         "angles": angles,
+        "angles_as": kind,
+        "plot": draw(_plot_spec(with_align=bool(same))),
         "pad": draw(_pads()),
         "pad_value": draw(st.sampled_from(PAD_VALUES)),
         "knots": draw(st.integers(1, 4)),
@@ -102,10 +152,11 @@ def history_cases(draw):
     R = draw(st.integers(6, 24))
     C = R if draw(st.integers(0, 3)) == 0 else draw(st.integers(6, 24))
     n = draw(st.integers(2, 4))
+    kind = draw(st.sampled_from(ANGLE_KINDS))
     if draw(st.integers(0, 3)) == 0:
-        angles = [draw(_angles()) for _ in range(n)]
+        angles = [draw(_angles(kind)) for _ in range(n)]
     else:
-        angles = [draw(_angles())] * n
+        angles = [draw(_angles(kind))] * n
     shifts = [[0, 0]] + [[draw(st.integers(-3, 3)), draw(st.integers(-3, 3))] for _ in range(n - 1)]
     if all(sh == [0, 0] for sh in shifts):
         shifts[1] = [1, -2]  # construction, not rejection: at least one real shift
@@ -131,7 +182,7 @@ def history_cases(draw):
         change = {}
         mode = draw(st.sampled_from(["same", "same", "same", "angles+1knot", "angles+1knot", "angles+1knot", "subset", "subset"]))
         if mode == "angles+1knot":
-            change["angles"] = [draw(_angles()) for _ in range(n)]
+            change["angles"] = [draw(_angles(kind)) for _ in range(n)]
             if draw_k != 1 or draw(st.booleans()):
                 change["knots"] = 1
             if draw(st.integers(0, 3)) == 0:
@@ -147,18 +198,20 @@ def history_cases(draw):
             if "sigma" in picked:
                 change["sigma"] = draw(_sigmas())
             if "angles" in picked:
-                change["angles"] = [draw(_angles()) for _ in range(n)]
+                change["angles"] = [draw(_angles(kind)) for _ in range(n)]
             if "pad_value" in picked:
                 change["pad_value"] = draw(st.sampled_from(PAD_VALUES))
         if "knots" in change:
             draw_k = change["knots"]
-        rounds.append({"align": align, "change": change})
+        rounds.append({"align": align, "change": change, "plot": draw(_plot_spec(with_align=align is not None))})
     return {
         "kind": "history",
         "R": R,
         "C": C,
         "n": n,
         "angles": angles,
+        "angles_as": kind,
+        "plot": draw(_plot_spec(with_align=False)),
         "shifts": shifts,
         "pad": draw(_pads()),
         "pad_value": draw(st.sampled_from(PAD_VALUES)),
@@ -179,10 +232,10 @@ def _is_axis(a):
 
 
 def _new_metrics():
-    return {"coord": 0.0, "wsum": 0.0, "centroid": 0.0, "knot": 0.0, "knot_over_noise": 0.0, "img_interior_over_tol": 0.0, "img_any_over_tol": 0.0}
+    return {"coord": 0.0, "coord_single": 0.0, "wsum": 0.0, "centroid": 0.0, "knot": 0.0, "knot_over_noise": 0.0, "img_interior_over_tol": 0.0, "img_any_over_tol": 0.0}
 
 
-def _judge_initial_geometry(ctx, case, dc, images, angles, R, C, k, sigma, pad, up, metrics, stage=""):
+def _judge_initial_geometry(ctx, case, dc, images, angles, R, C, k, sigma, pad, up, metrics, stage="", tol_coord=TOL_COORD):
     """Clauses (1) and (2) on an object whose preprocess() has just returned.  Returns copies of
     (images_warped, weights_warped, knots) as they are at that moment."""
     n = len(images)
@@ -209,8 +262,8 @@ def _judge_initial_geometry(ctx, case, dc, images, angles, R, C, k, sigma, pad, 
         X, Y = ref.closed_form(R, C, H, W, angles[i])
         ex, ey = np.abs(xa - X), np.abs(ya - Y)
         err = float(np.max(np.stack([ex, ey])))  # NaN propagates and fails the comparison below
-        metrics["coord"] = max(metrics["coord"], err)
-        if not err <= TOL_COORD:
+        metrics["coord" if tol_coord == TOL_COORD else "coord_single"] = max(metrics["coord" if tol_coord == TOL_COORD else "coord_single"], err)
+        if not err <= tol_coord:
             ax = "col" if ey.max() > ex.max() else "row"
             r, c = np.unravel_index(int(np.argmax(ex if ax == "row" else ey)), (R, C))
             raise core.Violation(
@@ -252,15 +305,75 @@ def _judge_initial_geometry(ctx, case, dc, images, angles, R, C, k, sigma, pad, 
     return warped0, weights0, knots0
 
 
+def _pre_kwargs(plot):
+    mode = (plot or {}).get("pre", "off")
+    return {"merged": {"show_merged": True}, "images": {"show_images": True}}.get(mode, {})
+
+
+def _align_kwargs(plot):
+    """'default' leaves show_merged at its default (True): what a user typing align_translation() gets."""
+    mode = (plot or {}).get("align", "off")
+    return {
+        "off": {"show_merged": False},
+        "default": {},
+        "images": {"show_merged": False, "show_images": True},
+        "both": {"show_images": True},
+    }[mode]
+
+
+def _between_plots(ctx, case, dc, plot, stage=""):
+    """Public display methods called between steps: looking at the state must not change it."""
+    for name in (plot or {}).get("between", []):
+        if name == "convergence":
+            try:  # no knot overlay, unrelated to the geometry: a failure of this plot is not a C15 matter
+                dc.plot_convergence()
+            except Exception:  # noqa: BLE001
+                ctx.count("plot_convergence_raised")
+            continue
+        with ctx.sut(case, "plot_%s_images()%s" % (name, stage)):
+            if name == "merged":
+                dc.plot_merged_images()
+            else:
+                dc.plot_transformed_images()
+
+
+def _plot_classes(ctx, plots, knots, H, W):
+    on = any(p for p in plots)
+    out = ["plotting_on" if on else "plotting_off"]
+    if on:
+        outside = any(
+            bool(np.any(kn[0] < -0.5) or np.any(kn[0] > H - 0.5) or np.any(kn[1] < -0.5) or np.any(kn[1] > W - 0.5)) for kn in knots
+        )
+        out.append("plotting_on_knot_outside_canvas" if outside else "plotting_on_all_knots_inside")
+    return out
+
+
+def _close_figs():
+    import sys
+
+    plt = sys.modules.get("matplotlib.pyplot")
+    if plt is not None:
+        plt.close("all")
+
+
 def check(ctx, case):
-    if case.get("kind") == "history":
-        return _check_history(ctx, case)
+    try:
+        if case.get("kind") == "history":
+            return _check_history(ctx, case)
+        return _check_stack(ctx, case)
+    finally:
+        _close_figs()
+
+
+def _check_stack(ctx, case):
     DriftCorrection = _q()
     R, C, n, k = int(case["R"]), int(case["C"]), int(case["n"]), int(case["knots"])
     angles = [float(a) for a in case["angles"]]
     same = bool(case["same"])
     sigma = float(case["sigma"])
     up = int(case["warp_up"])
+    kind = case.get("angles_as", "list")
+    plot = case.get("plot")
     if same:
         base = ref.content(R, C, case["seed"], case["contrast"])
         images = [base.copy() for _ in range(n)]
@@ -279,26 +392,36 @@ def check(ctx, case):
         "pad0" if case["pad"] == 0 else "pad>0",
         "odd_rows" if R % 2 else "even_rows",
         "odd_cols" if C % 2 else "even_cols",
+        "angles_as:" + kind,
     ]
     if same:
         classes.append("align_up:%d" % int(case["align_up"]))
     ctx.record(case, nontrivial, classes)
 
     with ctx.sut(case, "DriftCorrection.from_data(...).preprocess(...)"):
-        dc = DriftCorrection.from_data([im.copy() for im in images], list(angles)).preprocess(
+        dc = DriftCorrection.from_data([im.copy() for im in images], _angle_container(kind, angles)).preprocess(
             pad_fraction=case["pad"],
             pad_value=case["pad_value"],
             kde_sigma=sigma,
             number_knots=k,
+            **_pre_kwargs(plot),
         )
+    _between_plots(ctx, case, dc, plot)
     metrics = _new_metrics()
-    warped0, weights0, knots0 = _judge_initial_geometry(ctx, case, dc, images, angles, R, C, k, sigma, case["pad"], up, metrics)
+    warped0, weights0, knots0 = _judge_initial_geometry(
+        ctx, case, dc, images, angles, R, C, k, sigma, case["pad"], up, metrics, tol_coord=_tol_coord(kind)
+    )
+    for c in _plot_classes(ctx, [plot], knots0, warped0.shape[1], warped0.shape[2]):
+        ctx.count(c)
 
     # ---- (3) identical stack is a fixed point of translation alignment --------------------------
     if same:
         au = int(case["align_up"])
-        with ctx.sut(case, "align_translation(upsample_factor=%d, show_merged=False)" % au):
-            dc.align_translation(upsample_factor=au, show_merged=False)
+        akw = _align_kwargs(plot)
+        with ctx.sut(case, "align_translation(upsample_factor=%d%s)" % (au, "".join(", %s=%s" % kv for kv in sorted(akw.items())))):
+            dc.align_translation(upsample_factor=au, **akw)
+        _between_plots(ctx, case, dc, plot, " after align_translation")
+        with ctx.sut(case, "reading knots / images_warped after align_translation"):
             knots1 = [np.asarray(kn, dtype=np.float64) for kn in dc.knots]
             warped1 = np.asarray(dc.images_warped.array)
         noise = ref.xcorr_noise_px(warped0[0])
@@ -318,9 +441,14 @@ def check(ctx, case):
             i = int(np.argmax([core.maxerr(a, b) for a, b in zip(knots1, knots0)]))
             d = (knots1[i] - knots0[i]).reshape(2, -1)
             raise core.Violation(
-                "%d identical %dx%d images, scan direction %g deg, %d knot(s): align_translation(upsample_factor=%d) moved the knots "
-                "of image %d by (%.3g, %.3g) px (expected no movement; rounding allowance %.2g px)"
-                % (n, R, C, angles[0], k, au, i, d[0, 0], d[1, 0], tol_knot),
+                "%d identical %dx%d images, scan direction %g deg, %d knot(s): align_translation(upsample_factor=%d%s)%s moved the knots "
+                "of image %d by up to %.3g px, first knot by (%.3g, %.3g) (expected no movement; rounding allowance %.2g px)"
+                % (
+                    n, R, C, angles[0], k, au,
+                    "".join(", %s=%s" % kv for kv in sorted(akw.items())),
+                    " + plot_* calls" if (plot or {}).get("between") else "",
+                    i, moved, d[0, 0], d[1, 0], tol_knot,
+                ),
                 case,
             )
         rng_v = float(max(warped0.max(), images[0].max()) - min(warped0.min(), images[0].min()))
@@ -361,15 +489,22 @@ def _check_history(ctx, case):
     base = ref.content(R, C, case["seed"], case["contrast"])
     images = [np.roll(base, (int(sh[0]), int(sh[1])), axis=(0, 1)) for sh in case["shifts"]]
     metrics = _new_metrics()
+    kind = case.get("angles_as", "list")
+    tol_coord = _tol_coord(kind)
+    plot0 = case.get("plot")
 
-    def _pre(dc):
-        return dc.preprocess(pad_fraction=cur["pad"], pad_value=cur["pad_value"], kde_sigma=cur["sigma"], number_knots=cur["knots"])
+    def _pre(dc, plot):
+        return dc.preprocess(
+            pad_fraction=cur["pad"], pad_value=cur["pad_value"], kde_sigma=cur["sigma"], number_knots=cur["knots"], **_pre_kwargs(plot)
+        )
 
     with ctx.sut(case, "DriftCorrection.from_data(...).preprocess(...)"):
-        dc = _pre(DriftCorrection.from_data([im.copy() for im in images], list(cur["angles"])))
+        dc = _pre(DriftCorrection.from_data([im.copy() for im in images], _angle_container(kind, cur["angles"])), plot0)
+    _between_plots(ctx, case, dc, plot0, " [after first preprocess]")
     _w, _c, knots_init = _judge_initial_geometry(
-        ctx, case, dc, images, cur["angles"], R, C, cur["knots"], cur["sigma"], cur["pad"], up, metrics, stage=" [first preprocess]"
+        ctx, case, dc, images, cur["angles"], R, C, cur["knots"], cur["sigma"], cur["pad"], up, metrics, stage=" [first preprocess]", tol_coord=tol_coord
     )
+    plot_cls = _plot_classes(ctx, [plot0] + [r.get("plot") for r in case["rounds"]], knots_init, _w.shape[1], _w.shape[2])
 
     moved_max = 0.0
     same_settings_after_move = False
@@ -378,19 +513,21 @@ def _check_history(ctx, case):
     ops = []
     for ri, rnd in enumerate(case["rounds"]):
         al = rnd.get("align")
+        plot = rnd.get("plot")
         moved = 0.0
         if al is not None:
             op = al["op"]
+            akw = _align_kwargs(plot)
             # the property says nothing about what the alignment does to this (arbitrary) stack, only that it
             # is a public step that may move the knots: an exception here is not a C15 violation -> the
             # history simply continues with whatever state the object is in
             try:
                 if op == "translation":
-                    dc.align_translation(upsample_factor=int(al["up"]), show_merged=False)
+                    dc.align_translation(upsample_factor=int(al["up"]), **akw)
                 elif op == "affine":
-                    dc.align_affine(num_tests=3, refine=False, upsample_factor=2, show_merged=False)
+                    dc.align_affine(num_tests=3, refine=False, upsample_factor=2, **akw)
                 else:
-                    dc.align_nonrigid(num_iterations=1, max_optimize_iterations=2, show_merged=False)
+                    dc.align_nonrigid(num_iterations=1, max_optimize_iterations=2, **akw)
                 ops.append(op)
             except Exception:  # noqa: BLE001
                 ctx.count("history_align_raised:" + op)
@@ -407,7 +544,7 @@ def _check_history(ctx, case):
         if "angles" in ch:
             cur["angles"] = [float(a) for a in ch["angles"]]
             with ctx.sut(case, "scan_direction_degrees = ..."):
-                dc.scan_direction_degrees = list(cur["angles"])
+                dc.scan_direction_degrees = _angle_container(kind, cur["angles"])
         if "angles" in ch and cur["knots"] == 1:
             angles_then_one_knot = True
         if len(ch) >= 2:
@@ -422,9 +559,10 @@ def _check_history(ctx, case):
             "same settings" if not ch else "changed " + ",".join(sorted(ch)),
         )
         with ctx.sut(case, "preprocess() again" + stage):
-            _pre(dc)
+            _pre(dc, plot)
+        _between_plots(ctx, case, dc, plot, stage)
         _w, _c, knots_init = _judge_initial_geometry(
-            ctx, case, dc, images, cur["angles"], R, C, cur["knots"], cur["sigma"], cur["pad"], up, metrics, stage=stage
+            ctx, case, dc, images, cur["angles"], R, C, cur["knots"], cur["sigma"], cur["pad"], up, metrics, stage=stage, tol_coord=tol_coord
         )
 
     classes = [
@@ -433,6 +571,7 @@ def _check_history(ctx, case):
         "history_knots_moved" if moved_max >= MOVED_MIN else "history_knots_not_moved",
     ]
     classes += sorted(set("history_align:" + o for o in ops))
+    classes += ["angles_as:" + kind] + plot_cls
     if same_settings_after_move:
         classes.append("history_same_settings_after_move")
     if angles_then_one_knot:
